@@ -715,7 +715,10 @@ func (v *Decoder) walkNode(ectx evaluationContext, n *html.Node) error {
 						typedResourceAnno = newSubjectAnno
 					}
 				}
-			} else {
+			}
+
+			if newSubject == nil {
+				// no @about, or one which is ignored (such as the empty safe CURIE "[]")
 				if isRootElement {
 					if s := resolveIRI(ectx, localPrefixMappings, "", localBaseURL, localDefaultVocabulary, false, true); s != nil {
 						newSubject = s
